@@ -1,7 +1,7 @@
 (* Facts about the model of TextWrappingSerializer (Ws/Wrap.v) that C03 uses for width > 0:
    the text-run lemma (lines joined by newline-plus-indentation are an inner whitespace variant of the
-   text, i.e. exactly what clause (iii) of ws_variant admits) and the refutation of full transparency on
-   the faithful model (finding C03-preserved-newline-offset). *)
+   text, i.e. exactly what clause (iii) of ws_variant admits) and the regression examples for the fixed
+   finding C03-preserved-newline-offset. *)
 From Coq Require Import List NArith ZArith Bool Lia.
 From Delb.Base Require Import PyStr PyStrFacts.
 From Delb.Gen Require Import GenNames GenPretty GenWrap.
